@@ -179,6 +179,9 @@ func (c *Ctx) finish() error {
 	if c.Violations == nil {
 		res["violations"] = []Violation{}
 	}
+	if c.caseFiles == nil {
+		res["case_files"] = []string{}
+	}
 	b, _ = json.MarshalIndent(res, "", " ")
 	return os.WriteFile(filepath.Join(c.Out, "result.json"), b, 0o644)
 }
